@@ -54,6 +54,7 @@ MIPS_REF = {
 PPC_REF = {
     "BL": {"W": {"lr"}}, "BLR": {"R": {"lr"}, "kinds": {"Branch"}}, "BCLR": {"R": {"lr"}, "kinds": {"Branch"}},
     "BCTR": {"R": {"ctr"}, "kinds": {"Branch"}}, "MTLR": {"W": {"lr"}}, "MFLR": {"R": {"lr"}, "Wn": {"lr"}},
+    "MTCTR": {"W": {"ctr"}},
     "CMPWI": {"ops": {"Cmplts"}, "opsn": {"Cmpltu"}}, "CMPLWI": {"ops": {"Cmpltu"}, "opsn": {"Cmplts"}},
     "SRAWI": {"any": {"AShr", "sra"}}, "LBZ": {"load": 8, "ops": {"Zext"}, "opsn": {"Sext"}},
     "LWZ": {"load": 32}, "LWZU": {"load": 32}, "STW": {"store": 32}, "STWU": {"store": 32}, "STMW": {"store": 32},
@@ -180,7 +181,109 @@ def run(db, rep, feat, tier):
     c05.r2(db, rep, {k: v for k, v in runs.items() if "translator::mips::" in k or "translator::ppc::" in k}, ("mips", "ppc"), "R5")
     r6(db, rep, hbm, mcls)
     r7(db, rep, hbp, pdisp, pterm)
+    r10(db, rep, tier)
+    r11(db, rep)
     c05.r4(db, rep, ("mips", "ppc"), "R8")
+
+
+def ppc_mask(mb, me):
+    """Power ISA MASK(mb, me), bits numbered 0 (msb) .. 31; returned LSB-first as a list of 0/1."""
+    out = []
+    for j in range(32):
+        be = 31 - j
+        inside = (mb <= be <= me) if mb <= me else (be <= me or be >= mb)
+        out.append(1 if inside else 0)
+    return out
+
+
+def r10(db, rep, tier):
+    import bitprov
+    r = rep.rule("R10", "K9", "PowerPC rotate-and-mask and immediate forms, bit for bit: for every (mb, me) and sampled shift amounts the "
+                 "value rlwinm_ assigns is ROTL32(rS, sh) & MASK(mb, me) (bit provenance of the IL term built for those immediates); "
+                 "slwi passes (sh, 0, 31-sh); lis yields the immediate in the upper half and zeros below")
+    sh = ilshape.Shape(db)
+    f = "translator::ppc::semantics::rlwinm_"
+    rep.anchor(f in db.hir, f)
+    shifts = range(32) if tier == "thorough" else (0, 1, 4, 16, 31)
+    bad = None
+    n = 0
+    for k in shifts:
+        for mb in range(32):
+            for me in range(32):
+                res = sh.run(f, args={1: ("sc", "ra", 32, "G"), 2: ilshape.opaque(32, "rs"), 3: ilshape.I(k), 4: ilshape.I(mb), 5: ilshape.I(me)})
+                asg = [o for o in res.ops if o["kind"] == "Assign"]
+                got = bitprov.bits(asg[0]["src"]) if len(asg) == 1 else None
+                m = ppc_mask(mb, me)
+                want = [("rs", (i - k) % 32) if m[i] else 0 for i in range(32)]
+                n += 1
+                if got != want and bad is None:
+                    bad = (k, mb, me, got, want)
+    r.decide(bad is None, "ppc|rlwinm_|mask", db.where(db.hir[f]),
+             "rlwinm rA, rS, %s, %s, %s assigns %s; the architecture gives %s" % (
+                 bad and bad[0], bad and bad[1], bad and bad[2], bitprov.show(bad and bad[3]), bitprov.show(bad and bad[4])),
+             detail={"immediates_evaluated": n})
+    # slwi: arguments of the shared helper
+    hb = db.hir.get("translator::ppc::semantics::slwi")
+    rep.anchor(hb is not None, "ppc::semantics::slwi")
+    ok = False
+    from db import int_lit
+    for c in walk(hb["body"]):
+        if (callee(c) or "") == f and len(c.get("args", ())) == 6:
+            a = c["args"]
+            mbv = int_lit(a[4])
+            mev = a[5]
+            me_ok = mev.get("k") == "Binary" and mev["op"] == "Sub" and int_lit(mev["a"]) == 31 and \
+                mev["b"].get("k") == "Path" and a[3].get("k") == "Path" and mev["b"]["res"].get("hid") == a[3]["res"].get("hid")
+            ok = mbv == 0 and me_ok
+    r.decide(ok, "ppc|slwi|arguments", db.where(hb), "slwi rA, rS, n is rlwinm rA, rS, n, 0, 31-n")
+    # lis
+    res = sh.run("translator::ppc::semantics::lis")
+    asg = [o for o in res.ops if o["kind"] == "Assign"]
+    got = bitprov.bits(asg[0]["src"]) if len(asg) == 1 else None
+    ok = got is not None and got[:16] == [0] * 16 and all(isinstance(b, tuple) and b[0].startswith("const#") and b[1] == i for i, b in enumerate(got[16:]))
+    r.decide(ok, "ppc|lis", db.where(db.hir["translator::ppc::semantics::lis"]),
+             "lis rD, SI assigns %s; the architecture gives zeros in bits 0..15 and SI in bits 16..31" % bitprov.show(got))
+
+
+def r11(db, rep):
+    from db import Cfg, mir_calls, mir_callee
+    from mirterm import terms_of
+    r = rep.rule("R11", "K6", "MIPS window end with a pending delay slot: the unguarded fall-through successor pushed when the bytes are "
+                 "exhausted is reachable only through a test of the delay-slot state (a branch whose delay slot is missing must "
+                 "not fall through)")
+    fn = lifters.TB["mips"]
+    body = db.mir.get(fn)
+    rep.anchor(body is not None, fn)
+    cfg = Cfg(body)
+    tm = terms_of(db, fn, {})
+    bd = sl = al = None
+    for nm, pl in body.get("names", []):
+        if len(pl) == 1:
+            if nm == "branch_delay" and bd is None:
+                bd = pl[0]
+            if nm == "successors" and sl is None:
+                sl = pl[0]
+            if nm == "address" and al is None and pl[0] <= body["argc"]:
+                al = pl[0]
+    rep.anchor(None not in (bd, sl, al), "mips translate_block: locals branch_delay, successors, address")
+    st = tm.local(sl)
+    tests = [i for i, b in enumerate(body["blocks"]) if b["t"]["k"] == "SwitchInt" and
+             isinstance(tm.operand(b["t"]["discr"]), tuple) and tm.operand(b["t"]["discr"])[0] == "discr" and
+             any(s_.get("rv", {}).get("k") == "Discriminant" and s_["rv"]["p"][0] == bd for s_ in b["s"])]
+    pushes = []
+    for i, t in mir_calls(body):
+        if (mir_callee(t) or "").endswith("Vec::<T, A>::push") and tm.operand(t["args"][0]) == st:
+            a = tm.operand(t["args"][1])
+            if isinstance(a, tuple) and a[0] == "tuple" and len(a[1]) == 2 and isinstance(a[1][1], tuple) and a[1][1][0] == "agg" and a[1][1][1].endswith("None"):
+                pushes.append((i, t))
+    # the loop-head exit is the first such push in source order
+    pushes.sort(key=lambda x: x[1].get("l", 0))
+    rep.anchor(bool(pushes), "window-end successor push")
+    first = pushes[0][0]
+    reach = cfg.reachable(0, avoid=tests)
+    r.decide(bool(tests) and first not in reach, "mips|window_end|delay_state_tested", db.where(body, pushes[0][1].get("l")),
+             "the window-end fall-through successor is pushed without looking at the delay-slot state: a branch that is the last "
+             "instruction of the given bytes gets its own successors plus an unconditional one, and its delay slot is dropped")
 
 
 def r1(db, rep, hb, disp, pre, cls):
